@@ -130,14 +130,21 @@ def field_src(fd, flavour):
     return f"{mod}.arg(" + ", ".join(parts) + ")"
 
 
-def def_src(d, uid, exe=None):
-    """Source text that binds K_<uid> to the task class of definition d."""
+def def_src(d, uid, exe=None, multi_out=False):
+    """Source text that binds K_<uid> to the task class of definition d.
+    multi_out (C32): python tasks declare the two outputs DefRoundTrip!PyOuts = <<zed, alpha>> and return a tuple."""
     names = [fd["name"] for fd in d["fields"]]
     inputs = "{" + ", ".join(f"{fd['name']!r}: {field_src(fd, d['flavour'])}" for fd in d["fields"]) + "}"
     xor = "[" + ", ".join("(" + "".join(f"{m!r}, " for m in g) + ")" for g in d["xor"]) + "]"
     if d["flavour"] == "python":
         args = ", ".join(names)
         tup = "(" + "".join(n + ", " for n in names) + ")"
+        if multi_out:
+            return (f"def F_{uid}({args}):\n"
+                    f"    body_log('T:{uid}', {tup})\n"
+                    f"    return {tup}, {len(names)}\n"
+                    f"K_{uid} = python.define(F_{uid}, inputs={inputs}, outputs={{'zed': ty.Any, 'alpha': int}}, "
+                    f"xor={xor}, name='K_{uid}')\n")
         return (f"def F_{uid}({args}):\n"
                 f"    body_log('T:{uid}', {tup})\n"
                 f"    return {tup}\n"
@@ -547,7 +554,7 @@ def canon_proj(p):
         c["allowed"] = sorted(a["allowed"])
         c["req"] = sorted(sorted([r["name"], bool(r["restricted"]), sorted(r["allowed"])] for r in rs) for rs in a["req"])
         out[f] = c
-    return {"fields": out, "xor": canon_xor(p["xor"])}
+    return {"fields": out, "xor": canon_xor(p["xor"]), "order": list(p.get("order", [])), "outs": list(p.get("outs", []))}
 
 
 def project_class(K, flavour, names):
@@ -574,6 +581,8 @@ def project_class(K, flavour, names):
                    and x.name not in ("function", "executable", "append_args"))
     xor = [{"m": [m for m in g if m is not None], "none": None in g} for g in K._xor]
     p = canon_proj({"fields": out, "xor": xor})
+    p["order"] = [x.name for x in flds if x.name in names]
+    p["outs"] = [x.name for x in get_fields(K.Outputs) if x.name in ("zed", "alpha")]
     if extra:
         p["extra_fields"] = extra
     return p
@@ -637,7 +646,7 @@ def run_outputs(K, case, row):
     try:
         outs = K(**kwargs32(case, row["a"]))(cache_root=os.path.join(tmp, "c"), worker="debug")
         if case["flavour"] == "python":
-            return _plain(outs.out)
+            return [_plain(outs.zed), _plain(outs.alpha)] if hasattr(outs, "zed") else _plain(outs.out)
         return [outs.return_code, outs.stdout.strip()]
     except Exception as e:  # noqa
         return f"EXC {type(e).__name__}: {str(e)[:120]}"
@@ -698,6 +707,9 @@ def roundtrip_def(K, case, exe, rng, n_run, with_json=True):
             diffs.append(["extra_fields", None, p["extra_fields"]])
         if p.get("xor") != exp["xor"]:
             diffs.append(["xor", exp["xor"], p.get("xor")])
+        for a in ("order", "outs"):
+            if p.get(a) != exp[a]:
+                diffs.append([a, exp[a], p.get(a)])
         for f in names:
             for a, want in exp["fields"][f].items():
                 got = p["fields"].get(f, {}).get(a, "<missing>")
@@ -757,7 +769,7 @@ def roundtrip_def(K, case, exe, rng, n_run, with_json=True):
         row = case["tab"][j]
         rec["runs"] += 1
         o_old, o_new = run_outputs(K, case, row), run_outputs(R, case, row)
-        want = ([VAL32[v] if v != "-" else eff_default(fd) for fd, v in zip(case["fields"], row["a"])]
+        want = ([[VAL32[v] if v != "-" else eff_default(fd) for fd, v in zip(case["fields"], row["a"])], len(case["fields"])]
                 if flavour == "python" else [0, " ".join(row["args"])])
         if o_new != want:
             if o_old == o_new:
@@ -806,7 +818,7 @@ def roundtrip_shard(job):
     run_every = job.get("run_every", 10)
     for lo in range(0, len(cases), 100):
         part = cases[lo:lo + 100]
-        src = "".join(def_src(case_to_def(c), str(i), exe) for i, c in enumerate(part, lo))
+        src = "".join(def_src(case_to_def(c), str(i), exe, multi_out=True) for i, c in enumerate(part, lo))
         try:
             mod = load_source(scratch, src, tag)
         except Exception as e:  # noqa
@@ -847,7 +859,7 @@ def roundtrip_shard(job):
 def roundtrip_one(scratch, case, level):
     """replay of one definition (one-row table for behaviour/run levels)."""
     exe = make_exe(scratch)
-    mod = load_source(scratch, def_src(case_to_def(case), "r0", exe), "replay32")
+    mod = load_source(scratch, def_src(case_to_def(case), "r0", exe, multi_out=True), "replay32")
     try:
         return roundtrip_def(getattr(mod, "K_r0"), case, exe, random.Random(0), 1 if level == "run" else 0)
     finally:
